@@ -86,18 +86,22 @@ def field_specials(code, kind):
 def _string_literal(draw, width, kind):
     if kind == "binary":
         b = draw(st.one_of(
-            st.binary(min_size=0, max_size=width),
-            st.lists(st.sampled_from([0, 0, 32, 65, 10, 255, 69, 78, 68]), min_size=0, max_size=width).map(bytes)))
+            st.binary(min_size=0, max_size=min(width, 64)),
+            st.lists(st.sampled_from([0, 0, 32, 65, 10, 255, 69, 78, 68]), min_size=0, max_size=min(width, 64)).map(bytes)))
         return b.hex()
-    n = draw(st.integers(0, width))
+    n = draw(st.integers(0, min(width, 64)))          # wide fields: the literal fills the head of the cell only
     chars = draw(st.lists(st.one_of(st.sampled_from(TEXT_CHARS), st.sampled_from(list(" \t,:;|aE0-."))),
                           min_size=n, max_size=n))
     return "".join(chars).encode("ascii").hex()
 
 
+WIDE_WIDTHS = [255, 256, 1024, 4096, 8192, 32768, 65536, 70001]
+BYTE_TARGETS = [4096, 8192, 65536, 2 ** 20, 2 ** 21, 3 * 2 ** 20]
+
+
 @st.composite
 def tables(draw, kind="binary", max_fields=8, max_rows=40, big_rows=3000, allow_mixed_order=False,
-           min_rows=1, types=None):
+           min_rows=1, types=None, sizes=False):
     nf = draw(st.integers(1, max_fields))
     names = draw(st.lists(st.sampled_from(NAMES), min_size=nf, max_size=nf, unique=True))
     order = draw(st.sampled_from(["<", ">"]))
@@ -117,7 +121,26 @@ def tables(draw, kind="binary", max_fields=8, max_rows=40, big_rows=3000, allow_
         if sh is not None:
             ent.append(draw(st.lists(st.integers(1, 3), min_size=sh, max_size=sh)))
         descr.append(ent)
-    if big_rows and draw(st.integers(0, 19)) == 19:
+    wide = False
+    if sizes and draw(st.integers(0, 29)) == 0:
+        # one wide field: a row longer than the usual stdio / line buffers (255 ... 70 kB)
+        wide = True
+        f = draw(st.integers(0, nf - 1))
+        if draw(st.booleans()):
+            descr[f] = [names[f], "|S%d" % (draw(st.sampled_from(WIDE_WIDTHS)) + draw(st.integers(-1, 1)))]
+        else:
+            descr[f] = [names[f], order + draw(st.sampled_from(["f8", "i4", "f4"])),
+                        draw(st.sampled_from([[1100], [4100], [64, 64], [9000]]))]
+    itemsize = np.dtype(descr_from_json(descr)).itemsize
+    if wide:
+        nrows = draw(st.integers(min_rows, max(min_rows, min(max_rows, 6))))
+        fill = "rand"
+    elif sizes and kind == "binary" and big_rows and draw(st.integers(0, 39)) == 0:
+        # total size next to a power-of-two boundary a buffered writer/reader might split at
+        target = draw(st.sampled_from(BYTE_TARGETS))
+        nrows = max(min_rows, target // itemsize + draw(st.integers(-1, 2)))
+        fill = "rand"
+    elif big_rows and draw(st.integers(0, 19)) == 19:
         nrows = draw(st.integers(max_rows + 1, big_rows))
         fill = "rand"
     else:
@@ -137,6 +160,15 @@ def tables(draw, kind="binary", max_fields=8, max_rows=40, big_rows=3000, allow_
         else:
             val = draw(st.sampled_from(sp))
         cells.append([draw(st.integers(0, nrows - 1)), f, draw(st.integers(0, nel - 1)), val])
+    if kind == "text" and all(base_code(e[1])[0] == "S" for e in descr) and not wide and draw(st.integers(0, 2)) == 0:
+        # a row made of blanks only (every string cell spaces or tabs): it is still a row
+        row = draw(st.integers(0, nrows - 1))
+        ch = draw(st.sampled_from(["20", "20", "09"]))
+        for f, ent in enumerate(descr):
+            nel = int(np.prod(ent[2])) if len(ent) == 3 else 1
+            w = int(base_code(ent[1])[1:])
+            for el in range(nel):
+                cells.append([row, f, el, {"s": ch * draw(st.sampled_from([w, w, 1]))}])
     return {"descr": descr, "nrows": nrows, "fill": fill, "seed": seed, "cells": cells, "kind": kind}
 
 
@@ -253,6 +285,11 @@ def describe(tcase):
         labs.add("mixed-order")
     n = tcase["nrows"]
     labs.add("rows:1" if n == 1 else "rows:2-40" if n <= 40 else "rows:>40")
+    isz = dtype_of(tcase).itemsize
+    if isz >= 255:
+        labs.add("row-bytes:%s" % ("<4k" if isz < 4096 else "<32k" if isz < 32768 else ">=32k"))
+    if n * isz >= 2 ** 20:
+        labs.add("table-bytes:>=1MiB")
     if len(tcase["descr"]) >= 2:
         labs.add("multi-field")
     for row, f, el, val in tcase["cells"]:
